@@ -261,20 +261,24 @@ type producer struct {
 	dk *dualKey
 	// vmStateReads: (height of the block the script was built for, index of the block whose transaction it asks about)
 	vmStateReads [][2]uint32
-	n            *Node
-	kr           *keyring
-	nonce        uint32
-	ks           [numContracts]*kContract // current code of each helper contract slot
-	kver         [numContracts]byte
-	khash        [numContracts]util.Uint160
-	kowner       [numContracts]int
-	kalive       [numContracts]bool
-	everK        map[util.Uint160]bool
-	txLog        []util.Uint256 // every transaction hash put on chain
-	dropped      map[string]int
-	vcache       map[[2]byte]*kContract
-	ora          oraState       // pending oracle requests (oracle.go)
-	probes       map[string]int // the run's probe counters (may be nil)
+	// txFromBlockReads: the same for Ledger.getTransactionFromBlock
+	txFromBlockReads [][2]uint32
+	n                *Node
+	kr               *keyring
+	nonce            uint32
+	ks               [numContracts]*kContract // current code of each helper contract slot
+	kver             [numContracts]byte
+	khash            [numContracts]util.Uint160
+	kowner           [numContracts]int
+	kalive           [numContracts]bool
+	// allowMTBChange: OpPolicy may call Policy.setMaxTraceableBlocks (state synchronisation runs)
+	allowMTBChange bool
+	everK          map[util.Uint160]bool
+	txLog          []util.Uint256 // every transaction hash put on chain
+	dropped        map[string]int
+	vcache         map[[2]byte]*kContract
+	ora            oraState       // pending oracle requests (oracle.go)
+	probes         map[string]int // the run's probe counters (may be nil)
 }
 
 func newProducer(n *Node) *producer {
@@ -442,7 +446,14 @@ func (p *producer) buildTx(o Op, extraAttrs []transaction.Attribute) (tx *transa
 				desc = fmt.Sprintf("removeWhitelistFeeContract K%d.%s", o.B%2, m)
 			}
 		case 7:
-			if o.Y%4 == 3 {
+			if o.Y%4 == 2 && p.allowMTBChange {
+				// (state synchronisation runs only) the committee lowers MaxTraceableBlocks: a synchronising node has to take the
+				// value from the state it synchronises to, not from its own genesis state
+				cur, inc := int64(bc.GetMaxTraceableBlocks()), int64(bc.GetMaxValidUntilBlockIncrement())
+				v := max(inc+1, min(cur-1, 3+o.N%6))
+				script = callScript(nativehashes.PolicyContract, "setMaxTraceableBlocks", v)
+				desc = fmt.Sprintf("setMaxTraceableBlocks %d (was %d)", v, cur)
+			} else if o.Y%4 == 3 {
 				script = callScript(nativehashes.PolicyContract, "setMillisecondsPerBlock", 1000+o.N)
 				desc = fmt.Sprintf("setMillisecondsPerBlock %d", 1000+o.N)
 			} else {
